@@ -1,2 +1,223 @@
-//! Sandbox driver + child for C18 (stub).
-fn main() {}
+//! Sandbox driver + child for C18.
+//!
+//! One binary, two roles:
+//! * `rv-sbx --child`  : the sandboxed service (`rink_sandbox::become_child`).
+//! * `rv-sbx drive`    : reads ONE scenario (JSON) from stdin, creates ONE
+//!   `Sandbox::<TestService>`, executes the requests in order on one thread and
+//!   prints one JSON line per request on stdout (nothing else goes to stdout).
+//!
+//! The request/response/scenario types live in `rv::props::c18` so that the
+//! check and this binary cannot disagree about the format.
+
+use rink_sandbox::{Alloc, Error, Sandbox, Service};
+use rv::props::c18::{fnv64, payload_for, Kind, Obs, Scenario, SvcConfig, WireReq, WireRes};
+use std::ffi::OsString;
+use std::io::{Error as IoError, Read, Write};
+use std::path::PathBuf;
+use std::time::{Duration, Instant};
+
+#[global_allocator]
+static GLOBAL: Alloc = Alloc::new(usize::MAX);
+
+/// outer cap per `execute`: a missing reply becomes an observation
+const NO_REPLY_CAP: Duration = Duration::from_secs(30);
+
+struct TestService {
+    born_ns: u64,
+}
+
+impl Service for TestService {
+    type Req = WireReq;
+    type Res = WireRes;
+    type Config = SvcConfig;
+
+    fn program() -> Option<PathBuf> {
+        std::env::current_exe().ok()
+    }
+
+    fn args(_config: &Self::Config) -> Vec<OsString> {
+        vec!["--child".into()]
+    }
+
+    fn timeout(config: &Self::Config) -> Duration {
+        Duration::from_millis(config.timeout_ms)
+    }
+
+    fn create(config: Self::Config) -> Result<Self, IoError> {
+        let limit = if config.limit_bytes > usize::MAX as u64 {
+            usize::MAX
+        } else {
+            config.limit_bytes as usize
+        };
+        GLOBAL.set_limit(limit);
+        let born_ns = std::time::SystemTime::now()
+            .duration_since(std::time::UNIX_EPOCH)
+            .map(|d| d.as_nanos() as u64)
+            .unwrap_or(0);
+        Ok(TestService { born_ns })
+    }
+
+    fn handle(&self, req: Self::Req) -> Self::Res {
+        let mut res = WireRes {
+            echo_id: req.id,
+            pid: std::process::id(),
+            born_ns: self.born_ns,
+            value: 0,
+            payload: vec![],
+        };
+        match req.kind {
+            Kind::Add { a, b } => res.value = a.wrapping_add(b) as u64,
+            Kind::Panic { msg } => panic!("{}", msg),
+            Kind::Sleep { ms } => {
+                std::thread::sleep(Duration::from_millis(ms));
+                res.value = ms;
+            }
+            Kind::Alloc { bytes } => {
+                // refused by the limiting allocator => handle_alloc_error => abort
+                let mut v: Vec<u8> = vec![0u8; bytes as usize];
+                let mut i = 0usize;
+                while i < v.len() {
+                    v[i] = (i >> 12) as u8 | 1;
+                    i += 4096;
+                }
+                let v = std::hint::black_box(v);
+                res.value = v.len() as u64;
+            }
+            Kind::Exit { code } => std::process::exit(code),
+            Kind::Large { n: _ } => {
+                res.value = fnv64(&req.payload);
+                let mut back = req.payload;
+                back.reverse();
+                res.payload = back;
+            }
+        }
+        res
+    }
+}
+
+fn no_core_dumps() {
+    unsafe {
+        let lim = libc::rlimit {
+            rlim_cur: 0,
+            rlim_max: 0,
+        };
+        libc::setrlimit(libc::RLIMIT_CORE, &lim);
+    }
+}
+
+fn emit(o: &Obs) {
+    let out = std::io::stdout();
+    let mut out = out.lock();
+    let _ = writeln!(out, "{}", serde_json::to_string(o).unwrap());
+    let _ = out.flush();
+}
+
+fn drive() -> i32 {
+    let mut text = String::new();
+    if std::io::stdin().read_to_string(&mut text).is_err() {
+        eprintln!("rv-sbx: cannot read the scenario from stdin");
+        return 3;
+    }
+    let sc: Scenario = match serde_json::from_str(&text) {
+        Ok(s) => s,
+        Err(e) => {
+            eprintln!("rv-sbx: bad scenario: {}", e);
+            return 3;
+        }
+    };
+    let cfg = SvcConfig {
+        limit_bytes: sc.limit_bytes,
+        timeout_ms: sc.timeout_ms,
+    };
+    async_std::task::block_on(async move {
+        let sandbox = match Sandbox::<TestService>::new(cfg).await {
+            Ok(s) => s,
+            Err(e) => {
+                eprintln!("rv-sbx: Sandbox::new failed: {}", e);
+                return 4;
+            }
+        };
+        for (i, step) in sc.steps.iter().enumerate() {
+            if step.gap_ms > 0 {
+                async_std::task::sleep(Duration::from_millis(step.gap_ms)).await;
+            }
+            let wire = WireReq {
+                id: step.req.id,
+                kind: step.req.kind.clone(),
+                payload: match step.req.kind {
+                    Kind::Large { n } => payload_for(step.req.id, n),
+                    _ => vec![],
+                },
+            };
+            let t0 = Instant::now();
+            let r = async_std::future::timeout(NO_REPLY_CAP, sandbox.execute(wire)).await;
+            let elapsed_ms = t0.elapsed().as_millis() as u64;
+            let mut o = Obs {
+                i,
+                outcome: String::new(),
+                detail: None,
+                value: None,
+                echo_id: None,
+                child_pid: None,
+                born_ns: None,
+                resp_len: None,
+                resp_sum: None,
+                memory_used: None,
+                elapsed_ms,
+            };
+            match r {
+                Err(_) => {
+                    // The request may have been handed over already; a later
+                    // `execute` on this Sandbox could pick up its reply, which
+                    // would be an artefact of this driver. Stop here.
+                    o.outcome = "no-reply".into();
+                    emit(&o);
+                    return 0;
+                }
+                Ok(Ok(resp)) => {
+                    o.outcome = "ok".into();
+                    o.value = Some(resp.result.value);
+                    o.echo_id = Some(resp.result.echo_id);
+                    o.child_pid = Some(resp.result.pid);
+                    o.born_ns = Some(resp.result.born_ns);
+                    o.resp_len = Some(resp.result.payload.len() as u64);
+                    o.resp_sum = Some(fnv64(&resp.result.payload));
+                    o.memory_used = Some(resp.memory_used as u64);
+                }
+                Ok(Err(e)) => {
+                    let text = e.to_string();
+                    o.outcome = match &e {
+                        Error::Panic(_) => "panic".to_string(),
+                        Error::Timeout(_) => "timeout".to_string(),
+                        Error::Crashed => "crashed".to_string(),
+                        _ => format!("other:{}", text),
+                    };
+                    o.detail = Some(match &e {
+                        // keep the whole panic report (it must contain the message)
+                        Error::Panic(m) => m.clone(),
+                        other => format!("{} ({:?})", text, other),
+                    });
+                }
+            }
+            emit(&o);
+        }
+        0
+    })
+}
+
+fn main() {
+    no_core_dumps();
+    let args: Vec<String> = std::env::args().collect();
+    match args.get(1).map(|s| s.as_str()) {
+        Some("--child") => rink_sandbox::become_child::<TestService, _>(&GLOBAL),
+        Some("drive") => {
+            let rc = drive();
+            // do not wait for anything else (zombie children are reaped by init)
+            std::process::exit(rc);
+        }
+        _ => {
+            eprintln!("usage: rv-sbx drive < scenario.json   (or --child, used internally)");
+            std::process::exit(2);
+        }
+    }
+}
